@@ -64,6 +64,7 @@ Definition dEvent : dec ev :=
   | 9 => ret (ELSync pa)
   | 10 => ret (EResync pa)
   | 11 => ret (EProc (Z.to_nat a))
+  | 12 => if b =? 0 then fail else ret (EProcF (Z.to_nat a) pb)
   | _ => fail
   end.
 
@@ -109,6 +110,24 @@ Fixpoint check_all (law : st -> ev -> st -> outcome -> bool) (s : st) (h : list 
   | _, _ => false
   end.
 
+(* quiescent laws with attribution to the known classes: the excuses collected so far *)
+Fixpoint check_exc (exc_of : st -> ev -> list positive) (law : list positive -> st -> bool)
+         (exc : list positive) (s : st) (h : list ev) (obs : list (outcome * st)) : bool :=
+  match h, obs with
+  | [], [] => true
+  | e :: h', (o, s') :: obs' =>
+      let exc' := exc_of s e ++ exc in
+      law exc' s' && check_exc exc_of law exc' s' h' obs'
+  | _, _ => false
+  end.
+
+Definition law_entry_exc (exc_of : st -> ev -> list positive) (law : list positive -> st -> bool) (toks : list Z) : list Z :=
+  match run_dec (let* mx := dZ in let* s := dSt mx in let* h := dList dEvent in
+                 let* obs := dObs mx (length h) in ret (s, h, obs)) toks with
+  | Some (s, h, obs) => eBool (check_exc exc_of law [] s h obs)
+  | None => bad_input
+  end.
+
 Definition law_entry (law : st -> ev -> st -> outcome -> bool) (toks : list Z) : list Z :=
   match run_dec (let* mx := dZ in let* s := dSt mx in let* h := dList dEvent in
                  let* obs := dObs mx (length h) in ret (s, h, obs)) toks with
@@ -141,7 +160,9 @@ Definition entry (sel : Z) (toks : list Z) : list Z :=
   | 131 => law_entry (fun s e s' _ => law_closed_only_when_really_empty s e s') toks
   | 132 => law_entry law_close_with_real_pgs toks
   (* quiescent end states (selector 4) *)
-  | 141 => law_entry (fun _ _ s' _ => law_no_stuck_child s') toks
-  | 142 => law_entry (fun _ _ s' _ => law_children_follow_closed_parent s') toks
+  | 141 => law_entry_exc exc_stuck law_stuck_X toks       (* unsigned: any other stuck child *)
+  | 142 => law_entry_exc exc_open law_openchild_X toks     (* unsigned: any other open child under a closed parent *)
+  | 143 => law_entry_exc exc_stuck law_stuck_Y toks       (* signed: the known class *)
+  | 144 => law_entry_exc exc_open law_openchild_Y toks     (* signed: the known class *)
   | _ => bad_input
   end.
